@@ -316,6 +316,57 @@ def findings_cases(chk, n_cases):
     return cases
 
 
+def scan_counter_cases(chk, n_cases):
+    """the per-language counters of the scan overview, over several scans made one after the other in this process"""
+    from codelimit.common import Scanner
+    rng = chk.rng
+    tmp = tempfile.mkdtemp(prefix="verif_c02s_")
+    seen = []
+    orig = Scanner.ScanResultTable
+
+    def rec(scan_totals, *a, **kw):
+        seen.append(scan_totals)
+        return orig(scan_totals, *a, **kw)
+    Scanner.ScanResultTable = rec
+    try:
+        for ci in range(n_cases):
+            root = os.path.join(tmp, f"s{ci}")
+            os.makedirs(root)
+            files = {}
+            for fi in range(rng.choice([1, 1, 2, 3])):
+                ext = rng.choice(["py", "js", "c", "java"])
+                # a Python definition needs a suite: no length 1 there
+                files[f"m{fi}.{ext}"] = [max(v, 2) if ext == "py" else v for v in gen_lengths(rng)]
+                with open(os.path.join(root, f"m{fi}.{ext}"), "w") as f:
+                    f.write(render_file(ext, files[f"m{fi}.{ext}"]))
+            del seen[:]
+            with contextlib.redirect_stdout(io.StringIO()):
+                Scanner.scan_codebase(Path(root))
+            lang = {"py": "Python", "js": "JavaScript", "c": "C", "java": "Java"}
+            want = {}
+            for nm, ls in files.items():
+                w = want.setdefault(lang[nm.rsplit(".", 1)[1]], [0, 0, 0, 0, 0])
+                w[0] += 1
+                w[1] += len(ls)
+                w[2] += sum(ls)
+                w[3] += sum(1 for v in ls if 31 <= v <= 60)
+                w[4] += sum(1 for v in ls if v > 60)
+            st = seen[-1] if seen else None
+            got = None if st is None else {t.language: [t.files, t.functions, t.loc, t.hard_to_maintain, t.unmaintainable]
+                                           for t in st.languages_totals()}
+            chk.evaluations += 1
+            chk.count("scan overview counters (consecutive scans in one process)")
+            if got != want:
+                chk.violation({"kind": "scan-counters", "files": files, "scan_number_in_process": ci + 1},
+                              f"scan #{ci + 1} of this process, files {files}: overview counters per language "
+                              f"[files, functions, lines, hard-to-maintain, unmaintainable] = {got}, expected {want}")
+            elif any(w[3] or w[4] for w in want.values()):
+                chk.nontrivial.add(("scan-counters", ci))
+    finally:
+        Scanner.ScanResultTable = orig
+        shutil.rmtree(tmp, ignore_errors=True)
+
+
 def run(tier, seed, replay=None):
     assert_repo_import()
     chk = Check("C02", tier, seed)
@@ -339,6 +390,7 @@ def run(tier, seed, replay=None):
     n_find = 150 if tier == "quick" else 3000
     cases += check_cases(chk, n_check)
     cases += findings_cases(chk, n_find)
+    scan_counter_cases(chk, 25 if tier == "quick" else 600)
     if model_ok:
         mism, err = eval_cases("C02", IMPORTS, [(m, e) for m, e, _ in cases], prelude=PRELUDE)
         chk.traces = len(cases)
